@@ -107,6 +107,15 @@ func genStructProg(id int, seed int64, nfields int) *Prog {
 			case "bool":
 				line("%s.f%d = %s", v, f, in("bool"))
 			case "*S":
+				if rng.Intn(2) == 0 {
+					// the receiver of a field target is evaluated before any assignment of the tuple happens
+					w := vars[rng.Intn(3)]
+					line("%s, %s.f%d = %s, %s", v, v, f, w, vars[rng.Intn(3)])
+					for _, x := range vars {
+						show(x, f)
+					}
+					break
+				}
 				line("%s.f%d = %s", v, f, vars[rng.Intn(3)])
 			case "[]int":
 				line("%s.f%d = append(%s.f%d, %s)", v, f, v, f, in("int"))
